@@ -491,10 +491,16 @@ func (e *expression) Value(ctx *hcl.EvalContext) (cty.Value, hcl.Diagnostics) {
 			keyMarks = append(keyMarks, nameMarks)
 			nameStr := name.AsString()
 			if _, defined := attrs[nameStr]; defined {
+				detail := fmt.Sprintf("An attribute named %q was already defined at %s.", nameStr, attrRanges[nameStr])
+				if len(nameMarks) > 0 {
+					// A name derived from a marked value (which might be
+					// sensitive, for example) must not be disclosed.
+					detail = fmt.Sprintf("An attribute with the same name was already defined at %s.", attrRanges[nameStr])
+				}
 				diags = append(diags, &hcl.Diagnostic{
 					Severity:    hcl.DiagError,
 					Summary:     "Duplicate object attribute",
-					Detail:      fmt.Sprintf("An attribute named %q was already defined at %s.", nameStr, attrRanges[nameStr]),
+					Detail:      detail,
 					Subject:     &jsonAttr.NameRange,
 					Expression:  e,
 					EvalContext: ctx,
